@@ -44,6 +44,12 @@ def run(repo: Repo, rep, tier: str):
     c05.writer_purity(repo, rep, "C16", "R6", "modules/sampler.py", 20)
 
 
+def _nm(repo: Repo, ci: ClassInfo, name: str) -> ast.FunctionDef:
+    """The method as rules read it: private helpers inlined, loops over visible elements unrolled."""
+    from .. import inline
+    return inline.normalize(repo, ci, repo.own_method(ci, name))
+
+
 def _sampler(repo: Repo):
     s = repo.cls("Sampler", module=SAMPLER)
     w = repo.cls("_StructWriter", module=SAMPLER)
@@ -115,8 +121,8 @@ def _field(expr: str) -> str:
 # -------------------------------------------------------------------------------- R1
 def instrument_layouts(repo: Repo):
     samp, W, R = _sampler(repo)
-    wfn = repo.own_method(samp, "global_config_chunks")
-    rfn = repo.own_method(samp, "load_instrument")
+    wfn = _nm(repo, samp, "global_config_chunks")
+    rfn = _nm(repo, samp, "load_instrument")
     le = _len_eval(repo, samp, wfn)
     ws = layout.writer_slots(repo, samp, wfn, W, lambda e: le.of(e))
     rs = layout.reader_slots(repo, samp, rfn, R)
@@ -174,7 +180,7 @@ def instrument_record(repo: Repo, rep, P: str, tables):
                           f"{rel}:{r.node.lineno}")
         # field agreement for directly stored attributes
         wf, rf = _field(w.expr), _field(r.expr)
-        if rf in ("", "_") and re.match(r"^[a-z]\w*\.[a-z_]", wf):
+        if rf in ("", "_") and re.match(r"^[a-z]\w*\.[a-z_]", wf) and "(" not in wf:
             ok = False
             rep.violation(f"{P}.R1", rcon, text,
                           f"slot {i} `{name}` carries `{wf}` in every written record, but the reader discards it "
@@ -267,7 +273,7 @@ def record_sizes(repo: Repo, rep, P: str, rule: str, tables):
     rep.count(f"{rule}.documented_offsets_checked", n, 6)
     # sample configuration record
     W, R = repo.cls("_StructWriter", module=SAMPLER), repo.cls("_StructReader", module=SAMPLER)
-    swfn, srfn = repo.own_method(samp, "sample_chunks"), repo.own_method(samp, "load_sample_meta")
+    swfn, srfn = _nm(repo, samp, "sample_chunks"), _nm(repo, samp, "load_sample_meta")
     sw = layout.writer_slots(repo, samp, swfn, W, lambda e: (_ for _ in ()).throw(Unknown("raw")))
     sr = layout.reader_slots(repo, samp, srfn, R)
     a, b = _total(sw), _total(sr)
@@ -295,7 +301,7 @@ def record_sizes(repo: Repo, rep, P: str, rule: str, tables):
 def sample_record(repo: Repo, rep, P: str, tables):
     samp, W, R = _sampler(repo)
     rel = samp.file.rel
-    wfn, rfn = repo.own_method(samp, "sample_chunks"), repo.own_method(samp, "load_sample_meta")
+    wfn, rfn = _nm(repo, samp, "sample_chunks"), _nm(repo, samp, "load_sample_meta")
     rep.func("rv.modules.sampler.Sampler.sample_chunks")
     rep.func("rv.modules.sampler.Sampler.load_sample_meta")
     ws = layout.writer_slots(repo, samp, wfn, W, lambda e: (_ for _ in ()).throw(Unknown("raw")))
@@ -409,16 +415,22 @@ def _enum_dict(repo: Repo, ci: ClassInfo, d: ast.Dict, keys_are_enums: bool) -> 
 
 
 def _flag_byte(repo, rep, P, samp, wfn, rfn):
+    """The sample's type byte: loop type, sustain, format and channel flags occupy disjoint bits in the writer, and the reader
+    extracts each from exactly the bits it was written to (however the locals are named or grouped)."""
+    from ..packed import subst_locals
     rel = samp.file.rel
     wcon, rcon = f"{rel}:Sampler.sample_chunks", f"{rel}:Sampler.load_sample_meta"
-    # writer: locals
-    wdefs: Dict[str, ast.expr] = {}
-    for n in walk_no_nested(wfn):
-        if isinstance(n, ast.Assign) and len(n.targets) == 1 and isinstance(n.targets[0], ast.Name):
-            wdefs[n.targets[0].id] = n.value
-    if "loop_format_flags" not in wdefs:
-        rep.inconclusive(f"{P}.R2", wcon, "", "loop_format_flags not found", f"{rel}:{wfn.lineno}")
+    # writer: the argument of the struct-writer call that mentions the loop type
+    flag_expr = None
+    for c in walk_no_nested(wfn):
+        if isinstance(c, ast.Call) and isinstance(c.func, ast.Attribute) and c.func.attr in ("uint8", "int8") and len(c.args) == 1:
+            e = subst_locals(wfn, c.args[0])
+            if ".loop_type" in norm(e):
+                flag_expr = e
+    if flag_expr is None:
+        rep.inconclusive(f"{P}.R2", wcon, "", "the flag byte (a one-byte field built from sample.loop_type) was not found", f"{rel}:{wfn.lineno}")
         return
+    svar_w = next((norm(n.value) for n in ast.walk(flag_expr) if isinstance(n, ast.Attribute) and n.attr == "loop_type"), "sample")
     loop_w = 2
     try:
         lt = repo.cls("BaseSampler", module="rv.modules.base.sampler").nested["LoopType"]
@@ -428,51 +440,84 @@ def _flag_byte(repo, rep, P, samp, wfn, rfn):
         loop_w = max(1, m.bit_length())
     except (KeyError, AnchorMissing, NotConst):
         pass
-    env = {"sample.loop_type": BV.term("loop_type", width=loop_w), "sample.loop_sustain": BV.term("loop_sustain", width=1)}
+    env = {f"{svar_w}.loop_type": BV.term("loop_type", width=loop_w), f"{svar_w}.loop_sustain": BV.term("loop_sustain", width=1)}
     ev = BitEval(repo, samp, env)
     try:
-        for name in ("sustain_flag", "format_flag", "channels_flag"):
-            if name in wdefs:
-                ev.env[name] = ev.ev(wdefs[name])
-        word = ev.ev(wdefs["loop_format_flags"]).truncate(8)
+        word = ev.ev(flag_expr).truncate(8)
     except Unsupported as e:
-        rep.inconclusive(f"{P}.R2", wcon, norm(wdefs["loop_format_flags"]), f"flag byte not evaluable: {e}", f"{rel}:{wfn.lineno}")
+        rep.inconclusive(f"{P}.R2", wcon, norm(flag_expr)[:160], f"flag byte not evaluable: {e}", f"{rel}:{wfn.lineno}")
         return
     tops = [i for i, l in enumerate(word.lanes[:8]) if bits.is_top(l)]
     if tops:
-        rep.violation(f"{P}.R2", wcon, norm(wdefs["loop_format_flags"]),
+        rep.violation(f"{P}.R2", wcon, norm(flag_expr)[:160],
                       f"sub-fields of the sample flag byte overlap on bit(s) {tops}: {word.show(8)}", f"{rel}:{wfn.lineno}")
         return
-    rep.ok(f"{P}.R2", wcon, f"loop_format_flags = {norm(wdefs['loop_format_flags'])}", f"disjoint sub-fields: {word.show(8)}")
-    # reader: evaluate each extraction with x = word
-    rdefs: Dict[str, ast.expr] = {}
+    rep.ok(f"{P}.R2", wcon, f"flag byte = {norm(flag_expr)[:120]}", f"disjoint sub-fields: {word.show(8)}")
+    # reader: the variable holding the byte (assigned from <reader>.uint8() and then masked)
     xvar = None
     for n in walk_no_nested(rfn):
-        if isinstance(n, ast.Assign) and len(n.targets) == 1 and isinstance(n.targets[0], ast.Name):
-            rdefs[n.targets[0].id] = n.value
-            if isinstance(n.value, ast.Call) and norm(n.value.func) == "r.uint8" and n.targets[0].id.endswith("flags"):
-                xvar = n.targets[0].id
+        if isinstance(n, ast.Assign) and len(n.targets) == 1 and isinstance(n.targets[0], ast.Name) and isinstance(n.value, ast.Call) \
+                and isinstance(n.value.func, ast.Attribute) and n.value.func.attr == "uint8":
+            nm = n.targets[0].id
+            if any(isinstance(b, ast.BinOp) and isinstance(b.op, ast.BitAnd) and any(isinstance(q, ast.Name) and q.id == nm for q in ast.walk(b))
+                   for b in ast.walk(rfn)):
+                xvar = nm
     if xvar is None:
         rep.inconclusive(f"{P}.R2", rcon, "", "flag byte variable not found in the reader", f"{rel}:{rfn.lineno}")
         return
+    # single-assignment locals other than the byte itself
+    cnt: Dict[str, int] = {}
+    rdefs: Dict[str, ast.expr] = {}
+    for n in walk_no_nested(rfn):
+        if isinstance(n, ast.Name) and isinstance(n.ctx, ast.Store):
+            cnt[n.id] = cnt.get(n.id, 0) + 1
+    for n in walk_no_nested(rfn):
+        if isinstance(n, ast.Assign) and len(n.targets) == 1 and isinstance(n.targets[0], ast.Name) and cnt.get(n.targets[0].id) == 1 \
+                and n.targets[0].id != xvar:
+            rdefs[n.targets[0].id] = n.value
+
+    def res(e: ast.expr, depth: int = 4) -> ast.expr:
+        import copy as _copy
+
+        class Sub(ast.NodeTransformer):
+            def visit_Name(self, node):
+                if isinstance(node.ctx, ast.Load) and node.id in rdefs and depth > 0:
+                    return res(rdefs[node.id], depth - 1)
+                return node
+        return Sub().visit(_copy.deepcopy(e))
     ev2 = BitEval(repo, samp, {xvar: word})
     checks = []
-    # loop
-    if "loop" in rdefs:
-        checks.append(("loop_type", rdefs["loop"], "loop_type", loop_w))
-    if "format" in rdefs:
-        checks.append(("format", rdefs["format"], "map(", None))
-    for n in walk_no_nested(rfn):
-        if isinstance(n, ast.Assign) and norm(n.targets[0]) == "sample.loop_sustain":
-            checks.append(("loop_sustain", n.value, "loop_sustain", 1))
-        if isinstance(n, ast.If) and xvar in norm(n.test) and any("channels" in norm(s) for s in n.body):
-            checks.append(("channels", n.test, "map(", None))
+    rmap_node = None
+    stereo_if = None
+    for n in ast.walk(rfn):
+        if isinstance(n, ast.Assign) and len(n.targets) == 1 and isinstance(n.targets[0], ast.Attribute):
+            fld = n.targets[0].attr
+            v = n.value
+            if fld == "loop_type":
+                sel = v.args[0] if isinstance(v, ast.Call) and len(v.args) == 1 else v
+                checks.append(("loop_type", res(sel), "loop_type", loop_w))
+            elif fld == "loop_sustain":
+                checks.append(("loop_sustain", res(v), "loop_sustain", 1))
+            elif fld == "format" and isinstance(v, ast.Subscript) and isinstance(v.value, ast.Dict):
+                checks.append(("format", res(v.slice), "map(", None))
+                rmap_node = v.value
+            elif fld == "channels" and isinstance(v, ast.IfExp):
+                checks.append(("channels", res(v.test), "map(", None))
+                stereo_if = (v.test, norm(v.body).split(".")[-1], norm(v.orelse).split(".")[-1])
+        if isinstance(n, ast.If) and any(isinstance(b, ast.Assign) and isinstance(b.targets[0], ast.Attribute) and b.targets[0].attr == "channels"
+                                         for b in n.body):
+            checks.append(("channels", res(n.test), "map(", None))
+            tb = next((norm(b.value).split(".")[-1] for b in n.body if isinstance(b, ast.Assign) and isinstance(b.targets[0], ast.Attribute)
+                       and b.targets[0].attr == "channels"), "?")
+            fb = next((norm(b.value).split(".")[-1] for b in n.orelse if isinstance(b, ast.Assign) and isinstance(b.targets[0], ast.Attribute)
+                       and b.targets[0].attr == "channels"), "?")
+            stereo_if = (n.test, tb, fb)
     rep.count("flag_byte_extractions", len(checks), 4)
     for label, expr, term, width in checks:
         try:
             got = ev2.ev(expr)
         except Unsupported as e:
-            rep.inconclusive(f"{P}.R2", rcon, norm(expr), f"not evaluable: {e}", f"{rel}:{expr.lineno}")
+            rep.inconclusive(f"{P}.R2", rcon, norm(expr), f"not evaluable: {e}", f"{rel}:{getattr(expr, 'lineno', rfn.lineno)}")
             continue
         ds = got.deps()
         want = [d for d in word.deps() if d.startswith(term)]
@@ -480,7 +525,6 @@ def _flag_byte(repo, rep, P, samp, wfn, rfn):
             want = [d for d in want if "format" in d]
         elif label == "channels":
             want = [d for d in want if "channels" in d]
-        nz = got.nonzero_lanes()
         src_lanes = [i for i, l in enumerate(word.lanes) if isinstance(l, tuple) and l[0] == "s" and l[1] in want]
         got_lanes = sorted({l[2] for l in got.lanes if isinstance(l, tuple) and l[0] == "s" and l[1] in want})
         full = set(ds) == set(want) and len(want) == 1 and not any(bits.is_top(l) for l in got.lanes) \
@@ -490,111 +534,164 @@ def _flag_byte(repo, rep, P, samp, wfn, rfn):
         else:
             rep.violation(f"{P}.R2", rcon, f"{label} ← {norm(expr)}",
                           f"the reader extracts {got.show(8)} from the flag byte {word.show(8)}: not exactly the bits the writer "
-                          f"stored for {label}", f"{rel}:{expr.lineno}")
+                          f"stored for {label}", f"{rel}:{getattr(expr, 'lineno', rfn.lineno)}")
     # enum-keyed tables are inverse maps
-    wd = wdefs.get("format_flag")
-    if isinstance(wd, ast.Subscript) and isinstance(wd.value, ast.Dict):
+    wd = cd = None
+    for n in ast.walk(flag_expr):
+        if isinstance(n, ast.Subscript) and isinstance(n.value, ast.Dict):
+            if ".format" in norm(n.slice):
+                wd = n
+            elif ".channels" in norm(n.slice):
+                cd = n
+    if wd is not None:
         wmap = _enum_dict(repo, samp, wd.value, True)
-        rmap = None
-        for n in walk_no_nested(rfn):
-            if isinstance(n, ast.Assign) and norm(n.targets[0]) == "sample.format" and isinstance(n.value, ast.Subscript) \
-                    and isinstance(n.value.value, ast.Dict):
-                rmap = _enum_dict(repo, samp, n.value.value, False)
+        rmap = _enum_dict(repo, samp, rmap_node, False) if rmap_node is not None else None
         if wmap is not None and rmap is not None and wmap == rmap and len(set(wmap.values())) == len(wmap):
             rep.ok(f"{P}.R2", rcon, f"format table {wmap}", "writer and reader tables are inverse maps")
+        elif wmap is None or rmap is None:
+            rep.inconclusive(f"{P}.R2", rcon, f"writer {wmap} / reader {rmap}", "sample format code tables not recognised on one side", f"{rel}:{rfn.lineno}")
         else:
             rep.violation(f"{P}.R2", rcon, f"writer {wmap} / reader {rmap}", "sample format code tables are not inverse to each other",
                           f"{rel}:{rfn.lineno}")
-    cd = wdefs.get("channels_flag")
-    if isinstance(cd, ast.Subscript) and isinstance(cd.value, ast.Dict):
+    if cd is not None:
         cmap = _enum_dict(repo, samp, cd.value, True)
-        stereo_if = None
-        for n in walk_no_nested(rfn):
-            if isinstance(n, ast.If) and xvar in norm(n.test) and any("channels" in norm(s) for s in n.body):
-                mask = None
-                for c in ast.walk(n.test):
-                    if isinstance(c, ast.BinOp) and isinstance(c.op, ast.BitAnd):
+        sif = None
+        if stereo_if is not None:
+            mask = None
+            t = res(stereo_if[0])
+            nonzero_test = True
+            if isinstance(t, ast.Compare) and len(t.ops) == 1 and isinstance(t.ops[0], ast.Eq) and norm(t.comparators[0]) == "0":
+                nonzero_test = False
+            for c in ast.walk(t):
+                if isinstance(c, ast.BinOp) and isinstance(c.op, ast.BitAnd):
+                    try:
+                        mask = repo.fold(c.right, ci=samp)
+                    except NotConst:
                         try:
-                            mask = repo.fold(c.right, ci=samp)
+                            mask = repo.fold(c.left, ci=samp)
                         except NotConst:
                             pass
-                tbranch = norm(n.body[0].value).split(".")[-1] if isinstance(n.body[0], ast.Assign) else "?"
-                fbranch = norm(n.orelse[0].value).split(".")[-1] if n.orelse and isinstance(n.orelse[0], ast.Assign) else "?"
-                stereo_if = (mask, tbranch, fbranch)
-        if cmap and stereo_if and cmap.get(stereo_if[1]) == stereo_if[0] and cmap.get(stereo_if[2]) == 0:
-            rep.ok(f"{P}.R2", rcon, f"channels table {cmap} / if flags & {stereo_if[0]:#x}: {stereo_if[1]} else {stereo_if[2]}", "inverse")
+            sif = (mask, stereo_if[1], stereo_if[2]) if nonzero_test else (mask, stereo_if[2], stereo_if[1])
+        if cmap and sif and cmap.get(sif[1]) == sif[0] and cmap.get(sif[2]) == 0:
+            rep.ok(f"{P}.R2", rcon, f"channels table {cmap} / if flags & {sif[0]:#x}: {sif[1]} else {sif[2]}", "inverse")
+        elif not cmap or not sif or sif[0] is None:
+            rep.inconclusive(f"{P}.R2", rcon, f"writer {cmap} / reader {sif}", "channel flag decoding not recognised", f"{rel}:{rfn.lineno}")
         else:
-            rep.violation(f"{P}.R2", rcon, f"writer {cmap} / reader {stereo_if}", "channel flag is not decoded as it was encoded",
+            rep.violation(f"{P}.R2", rcon, f"writer {cmap} / reader {sif}", "channel flag is not decoded as it was encoded",
                           f"{rel}:{rfn.lineno}")
 
 
+def _floor_affine(repo, samp, e: ast.expr, nvar, n_val: Tuple[int, int]) -> Optional[Tuple[int, int]]:
+    """Value of an integer expression in the chunk number n = a·i + b as (coefficient of i, constant), following // and >> by
+    constants exactly (valid when the divisor divides the coefficient); None when the expression has another shape."""
+    if nvar(e):
+        return n_val
+    try:
+        v = repo.fold(e, ci=samp)
+        if isinstance(v, int) and not isinstance(v, bool):
+            return (0, v)
+    except NotConst:
+        pass
+    if isinstance(e, ast.BinOp):
+        l = _floor_affine(repo, samp, e.left, nvar, n_val)
+        r = _floor_affine(repo, samp, e.right, nvar, n_val)
+        if l is None or r is None:
+            return None
+        if isinstance(e.op, ast.Add):
+            return (l[0] + r[0], l[1] + r[1])
+        if isinstance(e.op, ast.Sub):
+            return (l[0] - r[0], l[1] - r[1])
+        if isinstance(e.op, ast.Mult) and (l[0] == 0 or r[0] == 0):
+            k, o = (l[1], r) if l[0] == 0 else (r[1], l)
+            return (o[0] * k, o[1] * k)
+        if isinstance(e.op, (ast.FloorDiv, ast.RShift)) and r[0] == 0:
+            d = r[1] if isinstance(e.op, ast.FloorDiv) else (1 << r[1] if 0 <= r[1] < 32 else 0)
+            if d > 0 and l[0] % d == 0:
+                return (l[0] // d, l[1] // d)       # floor((d·q·i + b) / d) = q·i + floor(b / d)
+    return None
+
+
 def _sample_numbering(repo, rep, P, samp, wfn):
+    from ..packed import subst_locals
+    from .. import chnm as chnm_mod
     rel = samp.file.rel
     ivar = [a.arg for a in wfn.args.args if a.arg != "self"][0]
     nums = []
     for n in walk_no_nested(wfn):
         if isinstance(n, ast.Yield) and isinstance(n.value, ast.Tuple) and isinstance(n.value.elts[0], ast.Constant) \
                 and n.value.elts[0].value == b"CHNM":
-            p = n.value.elts[1]
-            if isinstance(p, ast.Call) and norm(p.func) == "pack" and len(p.args) == 2:
+            p = subst_locals(wfn, n.value.elts[1])
+            if isinstance(p, ast.Call) and norm(p.func) in ("pack", "struct.pack") and len(p.args) == 2:
                 nums.append(p.args[1])
 
     def leaf(e):
         if isinstance(e, ast.Name) and e.id == ivar:
             return alg.Poly.sym("i")
-        return None
+        return _const_leaf(repo, samp, e)
     if len(nums) != 2:
         rep.inconclusive(f"{P}.R2", f"{rel}:Sampler.sample_chunks", "", f"{len(nums)} CHNM yields", f"{rel}:{wfn.lineno}")
         return
-    meta_p, data_p = alg.to_poly(nums[0], leaf), alg.to_poly(nums[1], leaf)
-    i = alg.Poly.sym("i")
+    try:
+        meta_p, data_p = alg.to_poly(nums[0], leaf), alg.to_poly(nums[1], leaf)
+    except alg.NotAlgebraic as e:
+        rep.inconclusive(f"{P}.R2", f"{rel}:Sampler.sample_chunks", f"{norm(nums[0])} / {norm(nums[1])}", f"chunk numbers not affine in the slot index: {e}",
+                         f"{rel}:{wfn.lineno}")
+        return
     readers = {"load_sample_meta": (meta_p, 1), "load_sample_data": (data_p, 0)}
     for rname, (wp, parity_) in readers.items():
-        rfn = repo.own_method(samp, rname)
-        idx = None
-        for n in walk_no_nested(rfn):
-            if isinstance(n, ast.Assign) and norm(n.targets[0]) == "index":
-                idx = n.value
+        rfn = _nm(repo, samp, rname)
         con = f"{rel}:Sampler.{rname}"
-        ok = False
-        detail = ""
-        if isinstance(idx, ast.BinOp) and isinstance(idx.op, ast.FloorDiv):
-            try:
-                num = alg.to_poly(idx.left, lambda e: alg.Poly.sym("n") if norm(e) == "chunk.chnm" else None)
-                den = repo.fold(idx.right, ci=samp)
-                comp = num.subst("n", wp)
-                rest = comp - i * den            # floor((den·i + c) / den) = i  iff  0 ≤ c < den
-                ok = rest.is_const() and 0 <= rest.const_value() < den
-                detail = f"({comp}) // {den}"
-            except (alg.NotAlgebraic, NotConst) as e:
-                detail = str(e)
-        if ok:
+        # the index used on self.samples
+        idx = None
+        for n in ast.walk(rfn):
+            if isinstance(n, ast.Subscript) and norm(n.value) == "self.samples" and not isinstance(n.slice, ast.Slice):
+                idx = subst_locals(rfn, n.slice)
+        a_i = wp.coeff_of("i")
+        try:
+            n_val = (int(a_i.const_value()), int(wp.const_value()))
+        except Exception:
+            n_val = None
+        got = None
+        if idx is not None and n_val is not None:
+            got = _floor_affine(repo, samp, idx, lambda e: norm(e) in ("chunk.chnm", "chnm"), n_val)
+            if got is None:
+                # chnm held in a local
+                names = {x.targets[0].id for x in walk_no_nested(rfn) if isinstance(x, ast.Assign) and isinstance(x.targets[0], ast.Name)
+                         and norm(x.value) == "chunk.chnm"}
+                got = _floor_affine(repo, samp, idx, lambda e: norm(e) == "chunk.chnm" or (isinstance(e, ast.Name) and e.id in names), n_val)
+        if idx is None or got is None:
+            rep.inconclusive(f"{P}.R2", con, norm(idx) if idx is not None else "", "slot index derived from the chunk number not recognised", f"{rel}:{rfn.lineno}")
+        elif got == (1, 0):
             rep.ok(f"{P}.R2", con, f"index = {norm(idx)}  ∘  chnm = {wp}", "recovers the sample slot index exactly")
         else:
-            rep.violation(f"{P}.R2", con, f"index = {norm(idx) if idx is not None else '?'} with chnm = {wp}",
-                          f"chunk number {wp} does not map back to slot i: {detail}", f"{rel}:{rfn.lineno}")
-        # odd/even dispatch
-        c = wp.const_value()
+            rep.violation(f"{P}.R2", con, f"index = {norm(idx)} with chnm = {wp}",
+                          f"chunk number {wp} does not map back to slot i: the reader computes {got[0]}·i + {got[1]}", f"{rel}:{rfn.lineno}")
+        # odd/even numbering
+        try:
+            c = wp.const_value()
+        except Exception:
+            c = None
         lin = wp.coeff_of("i")
-        if lin == alg.Poly.const(2) and int(c) % 2 == parity_:
+        if lin == alg.Poly.const(2) and c is not None and int(c) % 2 == parity_:
             rep.ok(f"{P}.R2", f"{rel}:Sampler.sample_chunks", f"chnm = {wp}", f"parity {parity_} as dispatched by load_chunk")
         else:
             rep.violation(f"{P}.R2", f"{rel}:Sampler.sample_chunks", f"chnm = {wp}",
                           f"sample {'configuration' if parity_ else 'data'} chunks must be numbered 2i+{2 - parity_}", f"{rel}:{wfn.lineno}")
-    # load_chunk dispatch by parity below 0x101
-    lc = repo.own_method(samp, "load_chunk")
-    src = norm(lc)
-    if "chnm < 257 and chnm % 2 == 1" in src and "self.load_sample_meta(chunk)" in src and "chnm < 257 and chnm % 2 == 0" in src \
-            and "self.load_sample_data(chunk)" in src:
-        order = src.index("chnm == 0") < src.index("chnm % 2 == 0") if "chnm == 0" in src else False
-        if order:
-            rep.ok(f"{P}.R2", f"{rel}:Sampler.load_chunk", "odd → sample meta, even → sample data, 0 → instrument first")
-        else:
-            rep.violation(f"{P}.R2", f"{rel}:Sampler.load_chunk", "chnm == 0 tested after the even-number branch",
-                          "the instrument record (chunk 0) would be loaded as sample data", f"{rel}:{lc.lineno}")
+    # load_chunk dispatch by parity below 0x101: probe the boundary numbers
+    probes = [(0, "instrument"), (1, "sample_meta"), (2, "sample_data"), (0xFF, "sample_meta"), (0x100, "sample_data")]
+    bad = []
+    for k, want in probes:
+        tgt, _ = chnm_mod.reader_target(repo, samp, k)
+        if tgt != want:
+            bad.append((k, want, tgt))
+    lcn = repo.own_method(samp, "load_chunk")
+    if not bad:
+        rep.ok(f"{P}.R2", f"{rel}:Sampler.load_chunk", "0 → instrument; odd → sample meta, even → sample data up to 0x100", "dispatch probed at the boundary numbers")
     else:
-        rep.violation(f"{P}.R2", f"{rel}:Sampler.load_chunk", "parity dispatch", "sample chunks are no longer dispatched by chunk-number parity below 0x101",
-                      f"{rel}:{lc.lineno}")
+        k, want, tgt = bad[0]
+        rep.violation(f"{P}.R2", f"{rel}:Sampler.load_chunk", f"chunk {k:#x} → `{tgt or 'nothing'}` (expected {want})",
+                      "sample chunks are no longer dispatched by chunk-number parity below 0x101 (the instrument record is chunk 0)",
+                      f"{rel}:{lcn.lineno}")
 
 
 def _chff_pair(repo, rep, P, samp, wfn):
@@ -602,7 +699,7 @@ def _chff_pair(repo, rep, P, samp, wfn):
     base = repo.cls("BaseSampler", module="rv.modules.base.sampler")
     fm = repo.enum_members(base.nested["Format"])
     ch = repo.enum_members(base.nested["Channels"])
-    rfn = repo.own_method(samp, "load_sample_data")
+    rfn = _nm(repo, samp, "load_sample_data")
     src = norm(rfn)
     fmask = cmask = None
     for n in walk_no_nested(rfn):
@@ -651,7 +748,7 @@ def envelope_chunk(repo: Repo, rep, P: str, tables):
     rel = samp.file.rel
     from .. import inline
     from ..packed import subst_locals
-    wfn, rfn = inline.normalize(repo, env, repo.own_method(env, "chunks")), inline.normalize(repo, env, repo.own_method(env, "load_chdt"))
+    wfn, rfn = _nm(repo, env, "chunks"), _nm(repo, env, "load_chdt")
     rep.func("rv.modules.sampler.Sampler.Envelope.chunks / load_chdt")
     wcon, rcon = f"{rel}:Sampler.Envelope.chunks", f"{rel}:Sampler.Envelope.load_chdt"
     # writer: the CHDT payload variable and its pieces: `data = pack(...)`, `data += b"..."`, `data += pack(...)`,
@@ -925,8 +1022,8 @@ def chunk_dispatch(repo: Repo, rep, P: str):
     rel = samp.file.rel
     inst = instance_classes(repo, samp)
     from .. import inline
-    lc = inline.normalize(repo, samp, repo.own_method(samp, "load_chunk"))
-    wf = inline.normalize(repo, samp, repo.own_method(samp, "specialized_iff_chunks"))
+    lc = _nm(repo, samp, "load_chunk")
+    wf = _nm(repo, samp, "specialized_iff_chunks")
     rep.func("rv.modules.sampler.Sampler.specialized_iff_chunks / load_chunk")
     # writer: which attributes' .chunks() are yielded
     written = []
@@ -958,7 +1055,7 @@ def chunk_dispatch(repo: Repo, rep, P: str):
             rep.violation(f"{P}.R3", lcon, f"{attr} written as chunk {k:#x}; loaded into `{tgt or 'nothing'}`",
                           f"the envelope written from {attr} is not loaded back into {attr}", f"{rel}:{lc.lineno}")
     # effect control envelopes: constructed with 0x105+k, dispatched to the list position they were written from
-    init = inline.normalize(repo, samp, repo.own_method(samp, "__init__"))
+    init = _nm(repo, samp, "__init__")
     ctor = []
     for n in walk_no_nested(init):
         if isinstance(n, ast.Assign) and norm(n.targets[0]) == "self.effect_control_envelopes" and isinstance(n.value, ast.List):
@@ -1013,7 +1110,7 @@ def slot_index_rule(repo: Repo, rep, P: str):
     """Sample chunks are numbered by the slot's own index in self.samples (slots stay at their indices)."""
     samp, W, R = _sampler(repo)
     rel = samp.file.rel
-    fn = repo.own_method(samp, "sample_data_chunks")
+    fn = _nm(repo, samp, "sample_data_chunks")
     con = f"{rel}:Sampler.sample_data_chunks"
     loops = [n for n in walk_no_nested(fn) if isinstance(n, ast.For)]
     ok = False
@@ -1037,8 +1134,8 @@ def slot_index_rule(repo: Repo, rep, P: str):
                       "sequence moves samples to lower slots when earlier slots are empty (the note map then points at the wrong samples)",
                       f"{rel}:{fn.lineno}")
     # reader: slot index written back at the same index
-    lm = norm(repo.own_method(samp, "load_sample_meta"))
-    ld = norm(repo.own_method(samp, "load_sample_data"))
+    lm = norm(_nm(repo, samp, "load_sample_meta"))
+    ld = norm(_nm(repo, samp, "load_sample_data"))
     if "sample = self.samples[index] = self.Sample()" in lm and "sample = self.samples[index]" in ld:
         rep.ok(f"{P}.R2", f"{rel}:Sampler.load_sample_meta", "self.samples[index] = self.Sample()", "loaded into the slot its chunk number names")
     else:
@@ -1049,7 +1146,7 @@ def legacy_upgrade_rule(repo: Repo, rep, P: str):
     """_upgrade_envelopes copies each legacy field into the field of the same name on the same envelope."""
     samp, W, R = _sampler(repo)
     rel = samp.file.rel
-    fn = repo.own_method(samp, "_upgrade_envelopes")
+    fn = _nm(repo, samp, "_upgrade_envelopes")
     con = f"{rel}:Sampler._upgrade_envelopes"
     n = 0
     for a in walk_no_nested(fn):
@@ -1072,8 +1169,19 @@ def legacy_upgrade_rule(repo: Repo, rep, P: str):
     # y values are rescaled with the envelope's own range
     if src.count("* 512") >= 2 and ".range[0]" in src:
         rep.ok(f"{P}.R5", con, "legacy y * 0x200 + range[0]", "legacy point heights rescaled into the envelope's range", nontrivial=False)
-    fl = norm(repo.own_method(samp, "finalize_load"))
-    if "if not self.volume_envelope.loaded:" in fl and "self._upgrade_envelopes()" in fl:
+    from .. import inline
+    from ..guards import canon
+    flf = inline.flatten(repo, samp, repo.own_method(samp, "finalize_load"), exclude=("_upgrade_envelopes",))
+    fl = norm(flf)
+    guarded = False
+    for n in ast.walk(flf):
+        if isinstance(n, ast.If) and canon(n.test) in ("not (self.volume_envelope.loaded)",) \
+                and any(isinstance(c, ast.Call) and norm(c.func) == "self._upgrade_envelopes" for b in n.body for c in ast.walk(b)):
+            guarded = True
+        if isinstance(n, ast.If) and canon(n.test) == "self.volume_envelope.loaded" \
+                and any(isinstance(c, ast.Call) and norm(c.func) == "self._upgrade_envelopes" for b in n.orelse for c in ast.walk(b)):
+            guarded = True
+    if guarded:
         rep.ok(f"{P}.R5", f"{rel}:Sampler.finalize_load", "if not volume_envelope.loaded: _upgrade_envelopes()", "conversion runs exactly when no envelope chunk was present")
     else:
         rep.violation(f"{P}.R5", f"{rel}:Sampler.finalize_load", fl[:160], "legacy envelopes must be converted when (and only when) the file has no envelope chunks", rel)
